@@ -9,6 +9,9 @@ leaf-list instance / the key values of a list instance.  `matchP` (Order.lean) i
 namespace LyModel.Diff
 open LyModel LyModel.Tree
 
+/-- a sibling key: schema id and (key leaf id, canonical value) pairs -/
+abbrev Key := Nat × List (Nat × Bytes)
+
 def keyPairs (ks : List DNode) : List (Nat × Bytes) := ks.map fun k => (k.sid, k.val)
 
 def kkey (S : Schema) (n : DNode) : Nat × List (Nat × Bytes) :=
